@@ -76,6 +76,12 @@ def cond_deps(ctx, fi: FunctionInfo, expr: ast.AST, visited: Optional[List[ast.A
             for n in ast.walk(e):
                 if isinstance(n, ast.Attribute) and isinstance(n.value, ast.Name) and n.value.id == sn:
                     m = fi.cls.lookup(n.attr) if fi.cls else None
+                    if m is not None and "property" in m.decorators:
+                        # a derived attribute computed on access: it is itself the thing depended on (and so is what it reads)
+                        k = "self." + n.attr
+                        if k not in seen:
+                            seen.add(k)
+                            out.add(k)
                     if m is not None:
                         for r in method_reads(ctx, m):
                             if r not in seen:
@@ -246,15 +252,41 @@ class GuardOb:
         self.min_accept = min_accept  # for count guards: smallest accepted value
         self.subject = subject
         self.module = module
+        self.param_consts: Dict[str, object] = {}  # (inside a validating helper) parameters bound to a constant by the call
+
+    def mapped(self, rename, consts):
+        """the same obligation inside a helper function: operand names replaced by the parameters that receive them"""
+        def rn(names):
+            out = set()
+            for x in names:
+                out |= rename.get(x, set())
+            return out
+        ia = self.inputs_all
+        if self.loop:
+            # an input that names the element of the validated collection (the loop variable) has no counterpart among the
+            # arguments: inside the helper _loop_guard demands the dependence on the helper's own loop variable instead
+            ia = {x for x in ia if rename.get(x) or x.startswith("self.")}
+        o = GuardOb(self.fn, self.label, self.wording, rn(self.inputs_any), rn(ia), self.eps, self.loop,
+                    rn(self.iterates) if self.iterates else None, self.min_accept,
+                    (sorted(rename.get(self.subject, {self.subject}))[0] if self.subject else None), self.module, self.container_type,
+                    None)
+        o.param_consts = dict(consts)
+        o._complete = all(rename.get(x) for x in ia) and (not self.inputs_any or bool(rn(self.inputs_any))) \
+            and (not self.iterates or bool(rn(self.iterates)))
+        return o
 
 
-def expand_guard(fi, e):
-    """a guard on a hoisted count (`count = len(points); if count < 3`) reads as the comparison on len(points)"""
+def expand_guard(fi, e, consts=None):
+    """a guard on a hoisted count (`count = len(points); if count < 3`) reads as the comparison on len(points); inside a
+    validating helper a parameter bound to a constant by the call (`minimum=3`) reads as that constant"""
     from ..astutil import single_defs
     import copy as _copy
     d = single_defs(fi.node, fi.params)
+    consts = consts or {}
     class R(ast.NodeTransformer):
         def visit_Name(self, n):
+            if isinstance(n.ctx, ast.Load) and n.id in consts:
+                return ast.copy_location(ast.Constant(value=consts[n.id]), n)
             v = d.get(n.id)
             if isinstance(n.ctx, ast.Load) and isinstance(v, ast.Call) and isinstance(v.func, ast.Name) and v.func.id == "len":
                 return _copy.deepcopy(v)
@@ -359,7 +391,7 @@ def check_guard(ctx, res, ob: GuardOb, rule="R15.1", prop_res=None, _fi=None, _d
                     return True
                 return bool(_ob.inputs_any) and nm not in fi.params and bool(
                     cond_deps(ctx, fi, ast.Name(id=nm, ctx=ast.Load())) & _ob.inputs_any)
-            sem = _int_guard_semantics(expand_guard(fi, e), rej, _subj)
+            sem = _int_guard_semantics(expand_guard(fi, e, ob.param_consts), rej, _subj)
             if sem is None:
                 rejected_detail.append("`%s`: not a count comparison on %s" % (txt(e)[:50], ob.subject))
                 continue
@@ -369,8 +401,60 @@ def check_guard(ctx, res, ob: GuardOb, rule="R15.1", prop_res=None, _fi=None, _d
                     txt(e)[:50], sorted(sem), ob.min_accept))
                 continue
         good.append((nid, rej, acc))
+    # a call of a validating helper is a guard too:  check_nonzero_vector(b, "Segment")  rejects exactly when the helper's
+    # own guard (on the parameter that receives the operand) does; the statement is passed only by accepted inputs
+    call_guards = []
+    if _depth < 3:
+        for n in g.nodes.values():
+            if n.kind != "stmt" or not isinstance(n.ast, (ast.Expr, ast.Assign)) or not isinstance(n.ast.value, ast.Call):
+                continue
+            c = n.ast.value
+            if not isinstance(c.func, ast.Name) or c.keywords and any(k.arg is None for k in c.keywords):
+                continue
+            b = fi.resolve(c.func.id)
+            if b is None or b.kind != "func" or b.target.cls is not None or b.target is fi or any(isinstance(a, ast.Starred) for a in c.args):
+                continue
+            h = b.target
+            rename: Dict[str, Set[str]] = {}
+            consts = {}
+            pairs = list(zip(h.params, c.args)) + [(k.arg, k.value) for k in c.keywords if k.arg in h.params]
+            given = {p_ for p_, _ in pairs}
+            ds = list(h.defaults)
+            for p_, d_ in zip(h.params[len(h.params) - len(ds):], ds):
+                if p_ not in given and isinstance(d_, ast.Constant):
+                    consts[p_] = d_.value
+            for p_, a_ in pairs:
+                if isinstance(a_, ast.Constant):
+                    consts[p_] = a_.value
+                    continue
+                adeps = cond_deps(ctx, fi, a_) | {txt(a_)}
+                for x in ob.inputs_all | ob.inputs_any | set(ob.iterates or ()) | ({ob.subject} if ob.subject else set()):
+                    if x in adeps:
+                        rename.setdefault(x, set()).add(p_)
+            if not rename:
+                continue
+            mob = ob.mapped(rename, consts)
+            if not mob._complete:
+                continue
+            if check_guard(ctx, res, mob, rule, prop_res, _fi=h, _depth=_depth + 1):
+                call_guards.append(n.id)
     where = fi.where()
     construct = "%s: %s" % (fi.short, ob.label)
+    if call_guards and not ob.loop:
+        cut_c = {(nid, y, l) for nid in call_guards for y, l in g.succ[nid]}
+        cut_g = {(nid, y, l) for nid, rej, acc in good for y, l in g.succ[nid] if l == acc}
+        # passing the call node IS passing the guard: cut the node itself
+        if g.path(g.entry, g.exit, avoid_edges=cut_g, avoid_nodes=set(call_guards)) is None:
+            if emit:
+                res.ob(rule, where, construct, True, "validated by %s on every normal path" % ", ".join(sorted(
+                    {"`%s`" % txt(g.nodes[nid].ast)[:50] for nid in call_guards} | {"`%s`" % txt(g.nodes[n_].ast)[:40] for n_, _, _ in good})))
+            return True
+    if call_guards and ob.loop:
+        if g.path(g.entry, g.exit, avoid_nodes=set(call_guards)) is None:
+            if emit:
+                res.ob(rule, where, construct, True, "every element validated by %s on every normal path" % ", ".join(
+                    sorted("`%s`" % txt(g.nodes[nid].ast)[:50] for nid in call_guards)))
+            return True
     if not good and _depth < 3:
         # the validation may live in a helper that every normal path calls (`self._check_closed_and_oriented()`)
         for callee in _must_pass_helpers(ctx, fi):
